@@ -277,6 +277,55 @@ def finishRequest (r : R) (uid : Nat) (resp : Resp) : R × Bool :=
 
 /-! ## request header blocks -/
 
+/-- the verdict of the body of the field loop of `handleHeaderFrame` on one decoded field: `none` = the
+field is accepted, otherwise the error the loop returns with -/
+def fieldVerdict (cfg : Cfg) (st : Strm) (f : Hpack.Field) : Option SErr :=
+  let k := f.name
+  let v := f.value
+  if cfg.maxHeaderList > 0 && ((st.hdrListSize + k.length + v.length + 32 : Nat) : Int) > cfg.maxHeaderList then
+    some (.goAway Gen.c_EnhanceYourCalm "header list exceeds the maximum size")
+  else if hasUpperCase k then some (.reset Gen.c_ProtocolError)
+  else if k.head? == some 58 then
+    if st.regularSeen then some (.reset Gen.c_ProtocolError)
+    else if k == Gen.s_StringMethod then (if st.pMethod then some (.reset Gen.c_ProtocolError) else none)
+    else if k == Gen.s_StringPath then (if st.pPath then some (.reset Gen.c_ProtocolError) else none)
+    else if k == Gen.s_StringScheme then (if st.pScheme then some (.reset Gen.c_ProtocolError) else none)
+    else if k == Gen.s_StringAuthority then (if st.pAuthority then some (.reset Gen.c_ProtocolError) else none)
+    else some (.reset Gen.c_ProtocolError)
+  else if isConnectionSpecific k then some (.reset Gen.c_ProtocolError)
+  else if k == Gen.s_StringTE && v != Gen.s_StringTrailers then some (.reset Gen.c_ProtocolError)
+  else if k == Gen.s_StringContentLength then
+    match parseUint v with
+    | some n => if cfg.maxBody > 0 && n > (cfg.maxBody : Int) then some (.reset Gen.c_EnhanceYourCalm) else none
+    | none => some (.reset Gen.c_ProtocolError)
+  else none
+
+/-- the bookkeeping an accepted field leaves on the stream (the running header-list size is updated for
+every field, accepted or not) -/
+def fieldUpdate (st : Strm) (f : Hpack.Field) : Strm :=
+  let k := f.name
+  let v := f.value
+  let st := { st with hdrListSize := st.hdrListSize + k.length + v.length + 32 }
+  if k.head? == some 58 then
+    if k == Gen.s_StringMethod then { st with pMethod := true, method := v }
+    else if k == Gen.s_StringPath then { st with pPath := true, path := v, uri := v }
+    else if k == Gen.s_StringScheme then { st with pScheme := true }
+    else if k == Gen.s_StringAuthority then { st with pAuthority := true, host := v }
+    else st
+  else
+    let st := { st with regularSeen := true }
+    if k == Gen.s_StringUserAgent then { st with userAgent := some v }
+    else if k == Gen.s_StringContentType then { st with contentType := some v }
+    else if k == Gen.s_StringContentLength then
+      match parseUint v with
+      | some n => { st with contentLength := n, hasCL := true }
+      | none => st
+    else { st with fields := st.fields ++ [(k, v)] }
+
+/-- one decoded field in the loop of `handleHeaderFrame` -/
+def fieldStep (cfg : Cfg) (st : Strm) (f : Hpack.Field) : Strm × Option SErr :=
+  (fieldUpdate st f, fieldVerdict cfg st f)
+
 /-- the field loop of `handleHeaderFrame` on the reassembled octets `b`.
 Returns the new state, the stream, and `none` (ok) or an error. -/
 def fieldLoop : Nat → Srv → Strm → Bool → Bool → Nat → Bytes → Srv × Strm × Option SErr
@@ -289,45 +338,11 @@ def fieldLoop : Nat → Srv → Strm → Bool → Bool → Nat → Bytes → Srv
       else (s, st, some (.goAway Gen.c_CompressionError "compression"))
     | .err => (s, st, some (.goAway Gen.c_CompressionError "compression"))
     | .ok dec fo rest =>
-      let s := { s with dec := dec }
-      -- `none`: only table size updates were left; the Go loop still treats `hf` (empty) as a field
-      let f : Hpack.Field := fo.getD ⟨[], [], false⟩
-      let k := f.name
-      let v := f.value
-      let st := { st with hdrListSize := st.hdrListSize + k.length + v.length + 32 }
-      if s.cfg.maxHeaderList > 0 && (st.hdrListSize : Int) > s.cfg.maxHeaderList then
-        (s, st, some (.goAway Gen.c_EnhanceYourCalm "header list exceeds the maximum size"))
-      else if hasUpperCase k then (s, st, some (.reset Gen.c_ProtocolError))
-      else if k.head? == some 58 then
-        if st.regularSeen then (s, st, some (.reset Gen.c_ProtocolError))
-        else if k == Gen.s_StringMethod then
-          if st.pMethod then (s, st, some (.reset Gen.c_ProtocolError))
-          else fieldLoop fuel s { st with pMethod := true, method := v } blockStart endHeaders (fp + 1) rest
-        else if k == Gen.s_StringPath then
-          if st.pPath then (s, st, some (.reset Gen.c_ProtocolError))
-          else fieldLoop fuel s { st with pPath := true, path := v, uri := v } blockStart endHeaders (fp + 1) rest
-        else if k == Gen.s_StringScheme then
-          if st.pScheme then (s, st, some (.reset Gen.c_ProtocolError))
-          else fieldLoop fuel s { st with pScheme := true } blockStart endHeaders (fp + 1) rest
-        else if k == Gen.s_StringAuthority then
-          if st.pAuthority then (s, st, some (.reset Gen.c_ProtocolError))
-          else fieldLoop fuel s { st with pAuthority := true, host := v } blockStart endHeaders (fp + 1) rest
-        else (s, st, some (.reset Gen.c_ProtocolError))
-      else
-        let st := { st with regularSeen := true }
-        if isConnectionSpecific k then (s, st, some (.reset Gen.c_ProtocolError))
-        else if k == Gen.s_StringTE && v != Gen.s_StringTrailers then (s, st, some (.reset Gen.c_ProtocolError))
-        else if k == Gen.s_StringUserAgent then
-          fieldLoop fuel s { st with userAgent := some v } blockStart endHeaders (fp + 1) rest
-        else if k == Gen.s_StringContentType then
-          fieldLoop fuel s { st with contentType := some v } blockStart endHeaders (fp + 1) rest
-        else if k == Gen.s_StringContentLength then
-          match parseUint v with
-          | some n =>
-            if s.cfg.maxBody > 0 && n > (s.cfg.maxBody : Int) then (s, st, some (.reset Gen.c_EnhanceYourCalm))
-            else fieldLoop fuel s { st with contentLength := n, hasCL := true } blockStart endHeaders (fp + 1) rest
-          | none => (s, st, some (.reset Gen.c_ProtocolError))
-        else fieldLoop fuel s { st with fields := st.fields ++ [(k, v)] } blockStart endHeaders (fp + 1) rest
+      -- `fo = none`: only table size updates were left; the Go loop still treats `hf` (empty) as a field
+      let x := fieldStep s.cfg st (fo.getD ⟨[], [], false⟩)
+      match x.2 with
+      | some e => ({ s with dec := dec }, x.1, some e)
+      | none => fieldLoop fuel { s with dec := dec } x.1 blockStart endHeaders (fp + 1) rest
 
 /-- `handleHeaderFrame` -/
 def handleHeaderFrame (s : Srv) (st : Strm) (fr : Frame) : Srv × Strm × Option SErr :=
@@ -585,6 +600,10 @@ def slStreamFrame (r : R) (fr : Frame) : R :=
     | none => u.1
     | some uid => knownStream u.1 uid fr wasClosing
 
+/-- the check before `continue` in the connection-level branch: the flush may have finished the last
+stream a GOAWAY was waiting for -/
+def closeIfClosing (r : R) : R := if r.s.closing && canCloseAfterGoAway r.s then stopLoop r else r
+
 /-- the SETTINGS_INITIAL_WINDOW_SIZE delta, stream by stream, stopping at the first overflow -/
 def applyDelta (delta : Int) : List Strm → List Strm × Bool
   | [] => ([], false)
@@ -607,14 +626,14 @@ def slFrame (r : R) (fr : Frame) : R :=
         let x := applyDelta delta r.s.strms
         let r := { r with s := { r.s with curInitWin := st.windowSize, strms := x.1 } }
         if x.2 then stopLoop (writeGoAway r 0 Gen.c_FlowControlError "stream-win-max")
-        else flushStreams r
-      else r
+        else closeIfClosing (flushStreams r)
+      else closeIfClosing r
     | .windowUpdate inc =>
       let w := r.s.clientWindow + inc
       let r := { r with s := { r.s with clientWindow := w } }
       if w > 2 ^ 31 - 1 then stopLoop (writeGoAway r 0 Gen.c_FlowControlError "conn-win-max")
-      else flushStreams r
-    | _ => r
+      else closeIfClosing (flushStreams r)
+    | _ => closeIfClosing r
   else slStreamFrame r fr
 
 /-- `case strm := <-sc.handlerDone` -/
